@@ -91,6 +91,34 @@ pub(crate) fn split_to_checked(b: &mut bytes::Bytes, len: usize) -> Result<bytes
     Ok(b.split_to(len))
 }
 
+/// Reads exactly `len` bytes from an asynchronous stream.
+///
+/// The buffer grows as the data arrives instead of being allocated from the
+/// length prefix up front, so a bogus length cannot make us allocate more
+/// than the peer actually sends. A negative length is an error.
+pub(crate) async fn read_exact_vec<R>(reader: &mut R, len: i64) -> Result<Vec<u8>, ThriftException>
+where
+    R: tokio::io::AsyncRead + Unpin + Send,
+{
+    use tokio::io::AsyncReadExt;
+
+    const PREALLOCATE_LIMIT: usize = 4096;
+
+    if len < 0 {
+        return Err(new_protocol_exception(
+            super::ProtocolExceptionKind::NegativeSize,
+            format!("negative length {len}"),
+        ));
+    }
+    let len = len as usize;
+    let mut v = Vec::with_capacity(len.min(PREALLOCATE_LIMIT));
+    let n = reader.take(len as u64).read_to_end(&mut v).await?;
+    if n != len {
+        return Err(std::io::Error::from(std::io::ErrorKind::UnexpectedEof).into());
+    }
+    Ok(v)
+}
+
 pub trait WriteExt {
     fn write_slice(&mut self, src: &[u8]);
     fn write_u8(&mut self, n: u8);
